@@ -53,6 +53,30 @@ Theorem C04_rewrap_keeps_accounting : forall maxc s, step maxc s Rewrap = (s, []
 Proof. reflexivity. Qed.
 Print Assumptions C04_rewrap_keeps_accounting.
 
+(* a request whose context is cancelled while its handler keeps running still holds its slot: the harness op is the
+   accounting's Rewrap (nothing); the slot goes back at the Finish, as for every other request *)
+Theorem C04_cancellation_keeps_the_slot : forall t a, decode_op [5; t; a] = Rewrap.
+Proof. reflexivity. Qed.
+Print Assumptions C04_cancellation_keeps_the_slot.
+
+(* a limiter built without a handler and wrapped later: an admitted arrival before Wrap fails in the missing handler
+   (a panic) and its slot goes back — every source has what it had, the total is unchanged *)
+Theorem C04_unwrapped_arrival_leaves_no_trace : forall maxc s t a s1, wfmap (cs s) -> acquire maxc s t a = Some s1 ->
+  let s2 := fst (step maxc s1 (Finish t a true)) in
+  (forall k, get (cs s2) k = get (cs s) k) /\ total s2 = total s /\ wfmap (cs s2).
+Proof. exact unwrapped_arrival_neutral. Qed.
+Print Assumptions C04_unwrapped_arrival_leaves_no_trace.
+
+(* ... so after any number of arrivals before Wrap the ordinary run continues from the accounting the limiter started
+   with (from init: every source can reach the full maximum) *)
+Theorem C04_wrap_after_early_requests : forall maxc ops s, wfmap (cs s) ->
+  Forall (fun l => exists t a, l = [0; t; a]) ops ->
+  forall rest, exists s', wfmap (cs s') /\ (forall k, get (cs s') k = get (cs s) k) /\ total s' = total s /\
+    run_unwrapped maxc s (ops ++ [4] :: rest) =
+    map (unwrapped_answer maxc s) ops ++ [] :: run_from (step maxc) s' (map decode_op rest).
+Proof. exact run_unwrapped_prefix. Qed.
+Print Assumptions C04_wrap_after_early_requests.
+
 (* once every request has finished the limiter is as new and admits the full maximum again *)
 Theorem C04_drain : forall maxc ops s t n,
   gexec maxc (init, []) ops = Some (s, []) -> Z.of_nat n <= maxc ->
@@ -78,6 +102,8 @@ Example C04_history_exists :
   unit_amounts ops /\
   gexec 2 (init, []) ops = Some ({| cs := [(7, 2)]; total := 2 |}, [(7, 1); (7, 1)]) /\
   run [2] [[0;7;1];[0;7;1];[4];[0;7;1];[0;8;1];[1;7;1;3];[0;7;1];[1;8;1;0]]
-    = [[200;1];[200;2];[];[429;0];[200;1];[];[200;2];[]].
-Proof. split; [|split; vm_compute; reflexivity].
+    = [[200;1];[200;2];[];[429;0];[200;1];[];[200;2];[]] /\
+  run [1; 1] [[0;7;1];[0;7;1];[4];[0;7;1];[5;7;1];[0;7;1];[1;7;1;0];[0;7;1]]
+    = [[-1;0];[-1;0];[];[200;1];[];[429;0];[];[200;1]].
+Proof. split; [|split; [|split]; vm_compute; reflexivity].
   intros t a H. cbn in H. repeat (destruct H as [H|H]; [inv H; try reflexivity|]); try discriminate; destruct H. Qed.
